@@ -46,6 +46,8 @@ def main() -> int:
     try:
         pkg = Package()
         mod.run(run, pkg)
+        if tier == "thorough" and not a.replay and not os.environ.get("VERIF_NO_SELFTEST"):
+            selftest_stage(run, pid)
     except AnalysisError as e:
         run.error(str(e))
     except Exception as e:  # noqa: any crash is an analysis error, never a violation
@@ -54,6 +56,41 @@ def main() -> int:
         if os.environ.get("VERIF_DEBUG"):
             traceback.print_exc()
     return run.finish()
+
+
+def selftest_stage(run: Run, pid: str) -> None:
+    """Thorough tier: exercise the property's rules both ways on scratch copies of the package - every killer variant (one
+    construct broken by an AST-level text edit) must be reported as a VIOLATION naming that construct, every twin (a behaviour-
+    preserving rewrite) must leave the check silent.  A failure here means the checker has gone blind or brittle: it is
+    reported as ANALYSIS-ERROR (exit 2), never as a violation of the property."""
+    import concurrent.futures as cf
+    import importlib.util
+    here = os.path.dirname(os.path.dirname(os.path.abspath(__file__)))
+    spec = importlib.util.spec_from_file_location("selftest_run", os.path.join(here, "selftest", "run.py"))
+    st = importlib.util.module_from_spec(spec)
+    spec.loader.exec_module(st)
+    muts = [dict(m, props=[pid]) for m in st.load_mutants() if pid in m["props"]]
+    if not muts:
+        run.error(f"no self-test variants registered for {pid}")
+        return
+    killers = twins = 0
+    with cf.ThreadPoolExecutor(max_workers=min(16, os.cpu_count() or 4)) as ex:
+        for m, results, err in ex.map(lambda m: st.run_one(m, "quick"), muts):
+            if err:
+                run.error(f"self-test variant {m['id']}: {err}")
+                continue
+            for prop, rc, out in results:
+                want_rc = 1 if m["expect"] == "fire" else 0
+                ok = rc == want_rc and (m["expect"] != "fire" or not m.get("mention") or m["mention"] in out)
+                killers += m["expect"] == "fire"
+                twins += m["expect"] != "fire"
+                run.ob("R-SELFTEST", "checker", m["id"], True if ok else None,
+                       ("variant with one construct broken is reported as a violation naming it" if m["expect"] == "fire"
+                        else "behaviour-preserving rewrite leaves the check silent"),
+                       f"exit {rc}" + ("" if ok else f", expected {want_rc}" + (f" mentioning {m.get('mention')}" if m.get("mention") else "")), nontrivial=False)
+                if not ok:
+                    run.error(f"self-test {m['id']}: exit {rc}, expected {want_rc}")
+    run.extra["selftest"] = {"killers": killers, "twins": twins}
 
 
 if __name__ == "__main__":
